@@ -2,6 +2,18 @@ module verifmon
 
 go 1.22
 
-require github.com/trajectoryjp/spatial_id_go/v4 v4.0.0
+require (
+	github.com/go-gl/mathgl v1.1.0
+	github.com/trajectoryjp/closest_go v1.0.3
+	github.com/trajectoryjp/geodesy_go v1.0.2
+	github.com/trajectoryjp/spatial_id_go/v4 v4.0.0
+	github.com/wroge/wgs84 v1.1.7
+)
+
+require (
+	github.com/trajectoryjp/multidimensional-radix-tree/src v0.0.0-20241022055138-bd6190702079 // indirect
+	golang.org/x/image v0.21.0 // indirect
+	gonum.org/v1/gonum v0.15.1 // indirect
+)
 
 replace github.com/trajectoryjp/spatial_id_go/v4 => /repo
